@@ -30,7 +30,7 @@ TInit == /\ t \in 1 .. NT /\ l = 2 /\ bad = ""
 FirstBad ==
     LET cl == << <<"cache", \A p \in Params : CV(cache'[p]) = Ev.c[p]>>,
                  <<"out", \A c \in Conns, p \in Params : out'[c][p] = Ev.o[c][p]>>,
-                 <<"wire", \A p \in Params : View(cache'[p]) = Ev.w[p]>>,
+                 <<"wire", \A p \in Params \ hidden : View(cache'[p]) = Ev.w[p]>>,
                  <<"seen", \A c \in Conns, p \in Params : Listens(sub'[c], p) => seen'[c][p] = Ev.s[c][p]>>,
                  <<"lock", Ev.unl = 0 /\ Ev.lk>> >>
         f == SelectSeq(cl, LAMBDA x : ~x[2])
